@@ -4,6 +4,8 @@ import (
 	"encoding/json"
 	"fmt"
 	"os"
+	"runtime"
+	"runtime/pprof"
 	"strings"
 	"time"
 
@@ -170,6 +172,13 @@ func main() {
 			r := runScenario(sc, bound, wi, wn, deadline)
 			b, _ := json.Marshal(r)
 			par.Emit(b)
+		}
+		if pf := os.Getenv("VERIF_MEMPROFILE"); pf != "" {
+			runtime.GC()
+			if f, err := os.Create(pf); err == nil {
+				_ = pprof.WriteHeapProfile(f)
+				f.Close()
+			}
 		}
 		return
 	}
